@@ -423,8 +423,158 @@ func c13Round(r *Run, rng *gen.Rng, st *c13Stats, corpus []string, roundSize, sw
 			}
 		}
 	}
-	_, err = c13Exec(r, st, cases2)
-	return err
+	if _, err = c13Exec(r, st, cases2); err != nil {
+		return err
+	}
+	// ---- phase 3: histories: several different programs through ONE transpiler object
+	// (totality must not depend on what the object was asked before)
+	nh := roundSize / 8
+	hists := make([]*simrt.History, nh)
+	for i := range hists {
+		hists[i] = c13GenHistory(r, rng.Sub())
+	}
+	type hout struct {
+		res   []simrt.CallResult
+		fatal string
+		err   error
+	}
+	outs := make([]hout, nh)
+	parallel(nh, r.Env.Workers, func(i int) {
+		outs[i].res, outs[i].fatal, outs[i].err = r.Env.RunHistory(hists[i])
+	})
+	for i, h := range hists {
+		if outs[i].err != nil {
+			return outs[i].err
+		}
+		class, detail := c13JudgeHistory(h, outs[i].res, outs[i].fatal, st)
+		if class != "" {
+			v := &Violation{Prop: "C13", Class: "history: " + class, Detail: detail, Kind: "history", Plan: jsonOf(h)}
+			if r.Known.Match(v) == nil && !r.seenCls[v.Class] {
+				v = c13MinimiseHistory(r, h, v)
+			}
+			r.Report(v)
+		}
+	}
+	return nil
+}
+
+// c13GenHistory: 3-10 programs written to the same (or a second) path and
+// transpiled one after another by the same transpiler object; function names
+// come from a small pool so that different programs define the same names
+// with different call edges.
+func c13GenHistory(r *Run, rng *gen.Rng) *simrt.History {
+	b := c13Budgets()
+	h := &simrt.History{World: simrt.WorldSpec{Files: []simrt.FileSpec{{Path: "/sim/x/tsh", Data: []byte("ELF")}, {Path: "/sim/m", Dir: true}}, Cwd: "/sim/m", Exe: "/sim/x/tsh", Budgets: &b}}
+	for _, n := range sortedKeys(r.Env.Std) {
+		h.World.Files = append(h.World.Files, simrt.FileSpec{Path: "/sim/x/std/" + n, Data: r.Env.Std[n]})
+	}
+	n := rng.Range(3, 10)
+	shared := rng.Chance(80)
+	for i := 0; i < n; i++ {
+		f := gen.RandomFeat(rng)
+		f.Funcs, f.NamePool, f.MaxFuncs = true, true, rng.Range(2, 5)
+		f.MaxTop = rng.Range(2, 6)
+		src, _ := gen.GenProgram(rng.Sub(), f, nil, "_")
+		if rng.Chance(20) {
+			b, _ := gen.Corrupt(rng, []byte(src))
+			src = string(b)
+		}
+		p := "/sim/m/" + rng.Pick([]string{"main.tsh", "main.tsh", "other.tsh"})
+		obj := 0
+		if !shared && rng.Chance(50) {
+			obj = i
+		}
+		h.Steps = append(h.Steps, simrt.Step{Kind: "write", File: p, Data: []byte(src)},
+			simrt.Step{Kind: "transpile", Obj: obj, Path: p, Target: rng.Pick([]string{"bash", "batch"}), MapMode: rng.Pick([]string{"canonical", "shuffle"}), MapSeed: rng.U64()})
+	}
+	return h
+}
+
+func c13JudgeHistory(h *simrt.History, res []simrt.CallResult, fatal string, st *c13Stats) (string, string) {
+	nT := 0
+	for i := range res {
+		if h.Steps[i].Kind != "transpile" {
+			continue
+		}
+		nT++
+		if st != nil {
+			st.evals++
+			st.families["history"]++
+			st.ticks += res[i].Ticks
+			st.ios += int64(res[i].IO)
+		}
+		class, ok := c13Classify(&res[i])
+		if st != nil && nT > 1 {
+			st.triples["history|"+class+"|call"+fmt.Sprint(min(nT, 4))] = true
+		}
+		if !ok {
+			return class, fmt.Sprintf("call %d of a history on one transpiler object: kind=%s err=%q panic=%q at %s", nT, res[i].Kind, res[i].Err, res[i].PanicMsg, res[i].PanicTop)
+		}
+	}
+	if fatal != "" || len(res) != len(h.Steps) {
+		if st != nil {
+			st.probes["fatal_worker_death"]++
+		}
+		l := fatal
+		if i := strings.Index(l, "\n"); i > 0 {
+			l = l[:i]
+		}
+		return "fatal: " + normalise(l), fmt.Sprintf("the worker process died during call %d of a history on one transpiler object: %s", nT+1, fatal)
+	}
+	return "", ""
+}
+
+func c13MinimiseHistory(r *Run, h *simrt.History, v *Violation) *Violation {
+	probe := func(c *simrt.History) string {
+		res, fatal, err := r.Env.RunHistory(c)
+		if err != nil {
+			return "machinery"
+		}
+		cls, _ := c13JudgeHistory(c, res, fatal, nil)
+		if cls == "" {
+			return "ok"
+		}
+		return "history: " + cls
+	}
+	if probe(h) != v.Class {
+		v.Note = "did not reproduce in a fresh process; original plan kept"
+		return v
+	}
+	type pair struct{ w, t simrt.Step }
+	pairs := []pair{}
+	for i := 0; i+1 < len(h.Steps); i += 2 {
+		pairs = append(pairs, pair{h.Steps[i], h.Steps[i+1]})
+	}
+	build := func(ps []pair) *simrt.History {
+		c := &simrt.History{World: h.World}
+		for _, p := range ps {
+			c.Steps = append(c.Steps, p.w, p.t)
+		}
+		return c
+	}
+	budget := 80
+	pairs = ddmin(pairs, func(cand []pair) bool { return probe(build(cand)) == v.Class }, &budget)
+	// shrink the programs by lines
+	for i := range pairs {
+		idx := i
+		items := ddmin(strings.SplitAfter(string(pairs[i].w.Data), "\n"), func(cand []string) bool {
+			ps := append([]pair{}, pairs...)
+			ps[idx].w.Data = []byte(strings.Join(cand, ""))
+			return probe(build(ps)) == v.Class
+		}, &budget)
+		pairs[i].w.Data = []byte(strings.Join(items, ""))
+	}
+	m := build(pairs)
+	if probe(m) == v.Class {
+		v.Plan = jsonOf(m)
+		v.Min = true
+		progs := []string{}
+		for _, p := range pairs {
+			progs = append(progs, fmt.Sprintf("%s(%s)=%q", path.Base(p.w.File), p.t.Target, tail(string(p.w.Data), 300)))
+		}
+		v.Detail += " | minimised to " + fmt.Sprint(len(pairs)) + " calls: " + strings.Join(progs, " ; ")
+	}
+	return v
 }
 
 func specData(w *simrt.WorldSpec, p string) string {
@@ -679,6 +829,20 @@ func c13Minimise(r *Run, c *c13Case, v *Violation) *Violation {
 
 // replayC13 re-executes a replay file and reports whether it still fails.
 func replayC13(r *Run, v *Violation) (bool, string, error) {
+	if v.Kind == "history" {
+		var h simrt.History
+		if err := json.Unmarshal(v.Plan, &h); err != nil {
+			return false, "", machinery("bad replay plan: %v", err)
+		}
+		res, fatal, err := r.Env.RunHistory(&h)
+		if err != nil {
+			return false, "", err
+		}
+		if cls, detail := c13JudgeHistory(&h, res, fatal, nil); cls != "" {
+			return true, "class=history: " + cls + " " + detail, nil
+		}
+		return false, "no violation on replay", nil
+	}
 	var plan simrt.WorkerPlan
 	if err := json.Unmarshal(v.Plan, &plan); err != nil {
 		return false, "", machinery("bad replay plan: %v", err)
